@@ -54,6 +54,10 @@ pub struct SessionCase {
     /// replay files of race failures ask for the session to be repeated until it fails (at most this often)
     #[serde(default)]
     pub repeat: u16,
+    /// Some(L): not a generated session but the record-length case - `position startpos moves <L plies of a knight
+    /// shuffle>`, `go depth 2`, which must be answered (every L from 0 to 398 is tried in every tier)
+    #[serde(default)]
+    pub record_len: Option<u16>,
 }
 
 pub struct C14;
@@ -575,7 +579,7 @@ impl Prop for C14 {
     }
 
     fn rule(&self) -> String {
-        "Cases (model-based): 3-16 GUI intents over {empty and unknown lines (`debug on`, `setoption …`, `ponderhit`, …: nothing expected back, the session just has to go on), isready, uci, show, position, go depth|movetime|depth+movetime (budgets 0.3 s to 1 h, ended by the depth limit long before)|clock|infinite, ucinewgame, stop, wait} interpreted by a GUI state machine (no game / game set / searching) so that every expectation is unambiguous, each preceded by a generated delay of 0/1/5/20/100 ms, together with a generated delay 0/20/100 ms for each of nine schedule points in command_go and the search-thread epilogue (before_flag_raise, after_flag_raise, timer_wakeup, before_search_spawn, search_thread_start, after_search_return, after_flag_clear, after_game_drop, after_bestmove_print). Run against the real binary built with the hooks. History invariants: exactly one bestmove per accepted go (never `none` here), each within its deadline (depth: grace; timed: budget + hook delays + grace; infinite: only after stop - the curated positions have no forced mate or single reply, so an infinite search that announces a move by itself, or a `go movetime T` answered well before T, is a violation: that is how a stale timer of an earlier `go depth d movetime T` shows), isready answered while idle and while searching, show/position/go refused while an infinite search runs, ucinewgame while searching stops the search (its bestmove is there before the next readyok), quit while searching exits with status 0, a position + go sent right after a bestmove line was read are honoured, an impatient GUI's early `position` + `go` sent 0-20 ms after a go with a small budget of its own (depth 1/3, movetime 0-20, exhausted clocks) - without waiting for the answer - is either refused with an error line or accepted, and after `stop` + `readyok` the number of bestmove lines equals the number of accepted go commands with no panic on stderr (one intent in five is such a pair), a go (of any kind) on a root without legal moves - one position command in four sets a stalemated or checkmated root - is answered at once with exactly one `bestmove none` line, no stray bestmove at the end, no panic on stderr, exit status 0 after quit. evaluations = commands issued. Non-trivial session: at least two searches and (a stretched schedule point or a command sent while searching); distinct by command script and delays.".into()
+        "Cases (model-based): 3-16 GUI intents over {empty and unknown lines (`debug on`, `setoption …`, `ponderhit`, …: nothing expected back, the session just has to go on), isready, uci, show, position, go depth|movetime|depth+movetime (budgets 0.3 s to 1 h, ended by the depth limit long before)|clock|infinite, ucinewgame, stop, wait} interpreted by a GUI state machine (no game / game set / searching) so that every expectation is unambiguous, each preceded by a generated delay of 0/1/5/20/100 ms, together with a generated delay 0/20/100 ms for each of nine schedule points in command_go and the search-thread epilogue (before_flag_raise, after_flag_raise, timer_wakeup, before_search_spawn, search_thread_start, after_search_return, after_flag_clear, after_game_drop, after_bestmove_print). Run against the real binary built with the hooks. History invariants: exactly one bestmove per accepted go (never `none` here), each within its deadline (depth: grace; timed: budget + hook delays + grace; infinite: only after stop - the curated positions have no forced mate or single reply, so an infinite search that announces a move by itself, or a `go movetime T` answered well before T, is a violation: that is how a stale timer of an earlier `go depth d movetime T` shows), isready answered while idle and while searching, show/position/go refused while an infinite search runs, ucinewgame while searching stops the search (its bestmove is there before the next readyok), quit while searching exits with status 0, a position + go sent right after a bestmove line was read are honoured, an impatient GUI's early `position` + `go` sent 0-20 ms after a go with a small budget of its own (depth 1/3, movetime 0-20, exhausted clocks) - without waiting for the answer - is either refused with an error line or accepted, and after `stop` + `readyok` the number of bestmove lines equals the number of accepted go commands with no panic on stderr (one intent in five is such a pair), a go (of any kind) on a root without legal moves - one position command in four sets a stalemated or checkmated root - is answered at once with exactly one `bestmove none` line, no stray bestmove at the end, no panic on stderr, exit status 0 after quit. Every tier also sends `go depth 2` after a game record of every length from 0 to 398 plies (one session each) and requires the answer within 10 s. evaluations = commands issued. Non-trivial session: at least two searches and (a stretched schedule point or a command sent while searching); distinct by command script and delays.".into()
     }
 
     fn assumptions(&self) -> Vec<String> {
@@ -612,10 +616,46 @@ impl Prop for C14 {
     fn strategy(&self, _ctx: &Ctx) -> BoxedStrategy<SessionCase> {
         let intent = (prop_oneof![16 => 0u8..EARLY_GO, 4 => EARLY_GO..EARLY_GO + 12, 1 => Just(NOISE[0]), 1 => Just(NOISE[1])], any::<u16>(), any::<u16>(), 0u8..5).prop_map(|(what, a, b, delay)| Intent { what, a, b, delay });
         let sched = vec((0u8..9, prop_oneof![5 => Just(0u8), 2 => Just(1u8), 2 => Just(2u8)]), 0..6);
-        (sched, vec(intent, 3..17)).prop_map(|(sched, intents)| SessionCase { sched, intents, repeat: 0 }).boxed()
+        (sched, vec(intent, 3..17)).prop_map(|(sched, intents)| SessionCase { sched, intents, repeat: 0, record_len: None }).boxed()
+    }
+
+    fn enumerate(&self, ctx: &Ctx, ev: &mut Ev, report: &mut dyn FnMut(SessionCase, Fail)) {
+        // a go after a game record of every length the interface accepts
+        for len in 0..=398u16 {
+            if !ctx.owns(len as u64) {
+                continue;
+            }
+            let case = SessionCase { sched: vec![], intents: vec![], repeat: 0, record_len: Some(len) };
+            ctx.note_inflight("C14", &case);
+            if let Err(f) = self.check(ctx, &case, ev) {
+                report(case, f);
+                return;
+            }
+        }
     }
 
     fn check(&self, _ctx: &Ctx, case: &SessionCase, ev: &mut Ev) -> Result<(), Fail> {
+        if let Some(len) = case.record_len {
+            let moves: Vec<&str> = (0..len as usize).map(|k| ["g1f3", "g8f6", "f3g1", "f6g8"][k % 4]).collect();
+            let mut s = Session::start(&[]).map_err(|e| Fail::new("harness", e))?;
+            s.send(&format!("position startpos moves {}", moves.join(" ")));
+            s.send("go depth 2");
+            ev.eval();
+            ev.class("go_after_a_record_of_every_length_0_to_398");
+            let got = s.read_until(|l| l.starts_with("bestmove") || l.starts_with("error"), 10_000);
+            let ok = matches!(&got, Some(ls) if ls.last().map(|l| l.starts_with("bestmove") && l.trim() != "bestmove none").unwrap_or(false));
+            if !ok {
+                let tail = s.transcript_tail(4);
+                let pan = s.panicked();
+                s.kill();
+                return Err(Fail::new("no-bestmove", format!("`go depth 2` after a record of {} plies (knight shuffle from the start position): no bestmove within 10 s ({:?}; stderr {:?}; {})", len, got.map(|l| l.last().cloned()), pan, tail)));
+            }
+            match s.quit_within(3_000) {
+                Some(0) => {}
+                other => return Err(Fail::new("engine-does-not-exit-cleanly", format!("after `go depth 2` at the end of a {}-ply record: exit status {:?}", len, other))),
+            }
+            return Ok(());
+        }
         for _ in 0..case.repeat.max(1) {
             self.run(case, ev)?;
         }
